@@ -45,7 +45,6 @@ import gen_hkl
 NCHUNK = gen_tables.NCHUNK
 BOX = 12          # sample box for the choice of certificates (all periods of the conditions divide 24)
 BOX_IMPL = 5      # smaller box on which the generator's picture of `sysabs` is compared with the implementation
-MAX_COVER = 8     # more candidates than this in one omega goal -> the disjunct is split by residue classes
 
 
 class Refuse(Exception):
@@ -394,9 +393,12 @@ def build_setting(key, o, rules, Pbox, Pimpl, tools):
     info = {'rule': r, 'branch': br, 'nops': len(ops), 'nconditions': len(ud), 'ndisjuncts': len(ud) * len(triples)}
     partial = None
     if bad_ea.any() or bad_ae.any():
+        def witnesses(mask):
+            w = [P[i].tolist() for i in np.nonzero(mask)[0]]
+            w.sort(key=lambda v: (sum(x * x for x in v), v))
+            return w[:5]
         partial = {'reason': 'sysabs and the operations disagree on sampled cone points (|h|,|k|,|l| <= %d)' % BOX,
-                   'extinct_but_allowed': [P[i].tolist() for i in np.nonzero(bad_ea)[0][:5]],
-                   'absent_but_not_extinct': [P[i].tolist() for i in np.nonzero(bad_ae)[0][:5]]}
+                   'extinct_but_allowed': witnesses(bad_ea), 'absent_but_not_extinct': witnesses(bad_ae)}
     K = key
     T = 'Sg.Tables.%s' % K
     cone = 'T51.Cone_r%d' % r
@@ -467,8 +469,6 @@ def build_setting(key, o, rules, Pbox, Pimpl, tools):
                     s += '  exfalso; omega\n\n'
                     continue
                 cov = greedy_cover(m, omask)
-                if len(cov) > MAX_COVER:
-                    raise Refuse('%s: condition %d on triple %d needs %d certificate operations' % (K, i, j, len(cov)))
                 s += '  have e : %s := by\n    simp only [Sg.ExtinctBy]; omega\n' % ' ∨ '.join('Sg.ExtinctBy %s h k l' % op_lit(ops[x]) for x in cov)
                 if len(cov) > 1:
                     s += '  rcases e with %s\n' % ' | '.join(['e'] * len(cov))
